@@ -69,6 +69,7 @@ Definition code_of_epres (r : epres) : N :=
   | EErr (EpParse (PCtx CeXOnly)) => 40 | EErr (EpParse (PCtx CeUncompressed)) => 41
   | EErr (EpParse (PCtx CeMultiA)) => 42 | EErr (EpParse (PCtx CeMulti)) => 43
   | EErr (EpParse (PCtx CeScriptSize)) => 44
+  | EErr (EpTop (TeNonBase b)) => 20 + base_code b
   | EErr (EpTop TeMultipath) => 50 | EErr (EpTop TeNonStandardBare) => 51
   end.
 
@@ -100,7 +101,7 @@ Definition entry_model (ps : list vparams) (c : ctx) (x : expr) (e i : N) : N :=
     | 21 | 26 | 27 => wrapper_new c (x_sum x)
     | 22 => tr_leaf_from_tree x
     | 23 => descriptor_from_str_inner CTap x
-    | 25 => EOk                                  (* Tr::new + TapTree::leaf: no check on the leaf *)
+    | 25 => tr_new_leaf (x_sum x)
     | 30 => ms_decode_with c (getp ps i) true x
     | 31 => ms_decode c true x
     | 32 => ms_decode_consensus c true x
